@@ -57,6 +57,10 @@ def compounds():
         yield ("if", b, None)
         yield ("with", "S", b)
         yield ("with", "N", b)
+        # several context managers in one statement: the suppressing one first, last, in the middle
+        yield ("with", "NS", b)
+        yield ("with", "SN", b)
+        yield ("with", "NSN", b)
     for a, b in itertools.product(B2, B2):
         yield ("if", a, b)
         yield ("try", a, [b], None, None)
@@ -268,7 +272,7 @@ def skeleton_strategy(width=3, depth=3):
             st.tuples(st.just("for"), lb, opt(b)),
             st.tuples(st.just("try"), b, st.lists(b, min_size=1, max_size=2), opt(b), opt(b)),
             st.tuples(st.just("try"), b, st.just([]), st.none(), b),
-            st.tuples(st.just("with"), st.sampled_from(["S", "N"]), b),
+            st.tuples(st.just("with"), st.sampled_from(["S", "N", "S", "N", "NS", "SN", "NN", "NSN"]), b),
         )
 
     def finish(b, g):
